@@ -47,7 +47,10 @@ func checkC02(c *Ctx) {
 		c02Newline(c, p, m)
 		c02NoFailure(c, p, m, tags)
 		c02Pool(c, p, m)
+		c03Routing(c, p, m)
 	}
+	r.Rule("R03.1", "(shared with C03) the destination selected for a severity is never an empty per-level list while a documented alternative exists: the routing decision function equals the documented one")
+	r.Rule("R03.2", "(shared with C03) own writer set when present, package default otherwise")
 	c.Floor["R02.1"] = 40
 	c.Floor["R02.2"] = 3
 	c.Floor["R02.3"] = 3
